@@ -18,6 +18,10 @@ static sqfs_object_t *xattr_writer_copy(const sqfs_object_t *obj)
 
 	memcpy(copy, xwr, sizeof(*xwr));
 
+	/* the block list is rebuilt below from the nodes of the copied tree */
+	copy->kv_block_first = NULL;
+	copy->kv_block_last = NULL;
+
 	if (str_table_copy(&copy->keys, &xwr->keys))
 		goto fail_keys;
 
@@ -29,6 +33,9 @@ static sqfs_object_t *xattr_writer_copy(const sqfs_object_t *obj)
 
 	if (rbtree_copy(&xwr->kv_block_tree, &copy->kv_block_tree) != 0)
 		goto fail_tree;
+
+	/* block_compare must look at the pair array of the copy */
+	copy->kv_block_tree.key_context = copy;
 
 	for (it = xwr->kv_block_first; it != NULL; it = it->next) {
 		rbtree_node_t *n = rbtree_lookup(&copy->kv_block_tree, it);
